@@ -162,6 +162,10 @@ def near_miss_names():
 def block_names():
     return st.one_of(identifiers(), st.sampled_from(["g", "obj", "Image", "IMAGE"]),
                      st.sampled_from(["g", "G", "x-", "a.b", "blk-1"]),
+                     # names that contain a block keyword of some dialect
+                     st.sampled_from(["BAND_GROUP", "SUBGROUP_1", "DATA_OBJECT", "GroupA",
+                                      "ObjectStore", "OLD_BEGIN_GROUP", "IMAGE_OBJECT",
+                                      "MY_END_OBJECT", "Group_Object", "ENDGROUP"]),
                      st.integers(0, 7).flatmap(
                          lambda k: near_miss_names() if k == 0 else identifiers()))
 
